@@ -304,6 +304,21 @@ def _r26c(chk, W) -> None:
         real = [(e, at) for e, at in leaves if not (isinstance(e, ast.Constant) and e.value is None)]
         okm = bool(real) and all(_from_stat(W, e, at) for e, at in real)
         chk.require(okm, "R26c", c, "mode applied to the temp file is not derived from os.stat(<input path>).st_mode", detail="chmod mode derives from stat(input)")
+        # ... and keeps all twelve mode bits: a mask narrower than S_IMODE (0o7777) drops set-uid / set-gid / sticky
+        for e, at in real:
+            for b in [x for x in ast.walk(e) if isinstance(x, ast.BinOp) and isinstance(x.op, ast.BitAnd)]:
+                for side in (b.left, b.right):
+                    k = side
+                    if isinstance(k, ast.Name):
+                        ko = origins(cfg, k, at)
+                        k = ko[0].expr if len(ko) == 1 and ko[0].kind == "expr" else k
+                    if isinstance(k, ast.Constant) and isinstance(k.value, int) and not isinstance(k.value, bool):
+                        chk.require(
+                            k.value & 0o7777 == 0o7777, "R26c", c,
+                            f"the mode carried over to the fixed file is masked with {oct(k.value)}, which is narrower than stat.S_IMODE (0o7777): set-uid / set-gid / sticky bits of the "
+                            "original are lost by a successful fix",
+                            detail="chmod mode keeps all permission bits of the original",
+                        )
         # guards: only tests of that mode value; every path to the rename applies chmod or took the mode-unknown branch
         skip = []
         bad = False
@@ -526,6 +541,18 @@ from ..selftest import Variant  # noqa: E402
 
 LF = LINTED_FILE
 VARIANTS = [
+    Variant(
+        "mode-carried-over-without-the-special-bits", LF,
+        "                mode = stat.S_IMODE(status.st_mode)\n",
+        "                mode = status.st_mode & 0o777\n",
+        "R26c", "_safe_create_replace_file", "seeded C26-11: set-gid directories' files lose the bit on every fix",
+    ),
+    Variant(
+        "quiet-mode-carried-over-by-the-full-mask", LF,
+        "                mode = stat.S_IMODE(status.st_mode)\n",
+        "                mode = status.st_mode & 0o7777\n",
+        "QUIET", None, "S_IMODE spelled as its mask",
+    ),
     # behaviour-preserving refactors: must stay quiet
     Variant("quiet-os-replace-instead-of-move", LF, "            shutil.move(tmp_name, output_path)\n", "            os.replace(tmp_name, output_path)\n", "QUIET", None,
             "same-directory rename spelled with os.replace"),
